@@ -390,10 +390,9 @@ Definition xml_trigger (comment : list N) : bool :=
   | None => false
   end.
 
-Definition is_surrogate (c : N) : bool := btw 55296 57343 c.
-(* xml.check_fragment(s): s.encode('UTF-8') raises UnicodeEncodeError on a surrogate *)
-Definition xml_check (cfg : config) (s : list N) : outcome (option (list N)) Empty_set :=
-  if existsb is_surrogate s then Crash CUnicodeError else Ok (c_xml cfg s).
+(* xml.check_fragment(s): s.encode('UTF-8', 'surrogatepass') cannot fail (a lone surrogate is handed to expat,
+   which rejects the bytes); the verdict is the oracle's *)
+Definition xml_check (cfg : config) (s : list N) : outcome (option (list N)) Empty_set := Ok (c_xml cfg s).
 
 Definition xml_diags (cfg : config) (fuzzy : bool) (e : msg_entry) : outcome (list mdiag) Empty_set :=
   if negb (c_encoding cfg) then Ok [] else
